@@ -41,9 +41,10 @@ LEVEL = {
             'note': _TB + 'Bytes are modelled as integers 0..255 and floats as their bit patterns.'},
     'C07': {'text': 'Theorems: the code\'s validation with freshly filled offsets accepts iff the declarative well-formedness (over unbounded integers) holds; '
                     'NewHeader, Header.TakeFrom (for every complete encoding with in-range fields) and ParseArchiveInfoList accept exactly what passes that validation, '
-                    'decoded offsets are the contiguous ones, accepted headers round-trip. All entry points incl. real Create/Sync/Open and the CLI flags are compared with the model.',
+                    'decoded offsets are the contiguous ones, accepted headers round-trip; the xFilesFactor bit test accepts exactly the float32 patterns denoting a real number in [0,1] (Flocq IEEE-754 semantics). '
+                    'All entry points incl. real Create/Sync/Open and the CLI flags are compared with the model.',
             'design_ref': '5 C07',
-            'note': _TB + 'xFilesFactor validity is decided on float32 bit patterns; strconv.ParseFloat is Go\'s own and its result is an input of the model.'},
+            'note': _TB + 'C07_xff_valid_iff_number_in_unit_interval depends on the standard library axioms ClassicalDedekindReals.sig_not_dec, sig_forall_dec, FunctionalExtensionality.functional_extensionality_dep, Classical_Prop.classic (real numbers); every other theorem is closed under the global context. strconv.ParseFloat is Go\'s own and its result is an input of the model.'},
     'C19': {'text': 'Theorem: parse(print t) = t for all 2^32 timestamps (calendar by a vm_compute sweep over all 49 711 days lifted to a universal statement). '
                     'parse(print d) = d for all 2^31 non-negative durations; an accepted duration string is a numeral plus one unit letter and means numeral * unit <= 2^31-1; '
                     'every valid archive list and every method name round-trips. The executable model of printers and parsers is also compared with the code on boundary numerals, '
